@@ -744,6 +744,14 @@ func runC16(c *Ctx) {
 	}
 	r8 := c.Rule("R8", "no entry point drops an error it has obtained", 4)
 	parserErrorsNotDropped(c, r8, m)
+	// --- R9 once the limit has tripped (an error is recorded and nothing is consumed any more) every loop leaves: the work
+	// done after the limit is bounded (shared with C01.R4 / R5)
+	r9 := c.Rule("R9", "every parser loop leaves when an error is recorded; every iteration consumes or fails (C01.R4/R5)", 20)
+	{
+		fl := newParserFlow(m)
+		c01LoopsLeave(c, r9, m, fl)
+		c01Progress(c, r9, m, fl)
+	}
 	if inNext == 0 {
 		r6.AnchorLost("a branch on the counter or the limit in the advance function")
 	} else if outside == 0 {
